@@ -95,6 +95,12 @@ func linOf(w *World, v ssa.Value, depth int) *linSum {
 	}
 	atom := func(v ssa.Value) *linSum {
 		key := fmt.Sprintf("%p", v)
+		// len/cap of the same slice value are the same number wherever they are taken
+		for _, bn := range []string{"len", "cap"} {
+			if lc := isBuiltinCall(v, bn); lc != nil && len(lc.Call.Args) == 1 {
+				key = fmt.Sprintf("%s(%p)", bn, stripAllConv(w.up(lc.Call.Args[0])))
+			}
+		}
 		if u, ok := v.(*ssa.UnOp); ok && u.Op == token.MUL {
 			if p := resolvedPath(u).Path; p != "" {
 				if _, isParam := resolvedPath(u).Root.(*ssa.Parameter); isParam {
@@ -1765,4 +1771,142 @@ func upTo(w *World, fn *ssa.Function, v ssa.Value) ssa.Value {
 		v = site.Common().Args[idx]
 	}
 	return v
+}
+
+// ---------------------------------------------------------------------------
+// PADCUT: a padded slice has exactly the length asked for
+
+const rulePADCUTText = "a padded slice is end-start bytes long: in par2.sliceAndPadByteArray the result is bs[start:e] plus p zero bytes with, on every path, (e - start) + p = end - start: either e = end and p = 0, or e = len(bs) and p = end - len(bs) - the slice search cuts candidates at every byte offset, where a padding computed from len(bs) modulo the slice size is wrong although it is right at the aligned offsets the writer uses"
+
+func rulePADCUT(w *World, r *Report) {
+	r.rule("PADCUT", rulePADCUTText)
+	fn := w.Fn("par2.sliceAndPadByteArray")
+	if fn == nil || len(fn.Params) != 3 {
+		r.unk("PADCUT", "sliceAndPadByteArray", "", "function not found")
+		return
+	}
+	bs, start, end := ssa.Value(fn.Params[0]), ssa.Value(fn.Params[1]), ssa.Value(fn.Params[2])
+	_ = start
+	lenBs := func(v ssa.Value) bool {
+		ln := isBuiltinCall(stripAllConv(v), "len")
+		return ln != nil && stripAllConv(ln.Call.Args[0]) == bs
+	}
+	// the cut: a Slice of bs with Low = start; High is a phi / value e
+	var cut *ssa.Slice
+	for _, b := range fn.Blocks {
+		for _, in := range b.Instrs {
+			if sl, ok := in.(*ssa.Slice); ok && stripAllConv(sl.X) == bs && sl.Low != nil && stripAllConv(sl.Low) == start {
+				if cut != nil {
+					r.unk("PADCUT", "sliceAndPadByteArray:cut", w.ipos(sl), "more than one cut of the input")
+					return
+				}
+				cut = sl
+			}
+		}
+	}
+	if cut == nil || cut.High == nil {
+		r.unk("PADCUT", "sliceAndPadByteArray:cut", w.pos(fn.Pos()), "no cut bs[start:e] found")
+		return
+	}
+	// the pad: every make([]byte, p) in the function
+	var pads []ssa.Value
+	for _, b := range fn.Blocks {
+		for _, in := range b.Instrs {
+			if mk, ok := in.(*ssa.MakeSlice); ok {
+				pads = append(pads, mk.Len)
+			}
+		}
+	}
+	if len(pads) != 1 {
+		r.unk("PADCUT", "sliceAndPadByteArray:pad", w.pos(fn.Pos()), fmt.Sprintf("%d padding allocations found, expected one", len(pads)))
+		return
+	}
+	// enumerate the cases edge by edge: e and p are phis of one block (or plain values)
+	type pair struct {
+		e, p ssa.Value
+		at   string
+	}
+	var cases []pair
+	ep, eIsPhi := stripAllConv(cut.High).(*ssa.Phi)
+	pp, pIsPhi := stripAllConv(pads[0]).(*ssa.Phi)
+	switch {
+	case eIsPhi && pIsPhi && ep.Block() == pp.Block():
+		for i := range ep.Edges {
+			pred := ep.Block().Preds[i]
+			cases = append(cases, pair{ep.Edges[i], pp.Edges[i], w.ipos(pred.Instrs[len(pred.Instrs)-1])})
+		}
+	case !eIsPhi && !pIsPhi:
+		cases = append(cases, pair{cut.High, pads[0], w.ipos(cut)})
+	default:
+		r.unk("PADCUT", "sliceAndPadByteArray:cases", w.ipos(cut), "the cut's end and the padding length are not merged at the same place")
+		return
+	}
+	for i, c := range cases {
+		key := fmt.Sprintf("sliceAndPadByteArray:case#%d", i)
+		le, lp := linOf(w, c.e, 0), linOf(w, c.p, 0)
+		// substitute: atoms that are parameters of fn must not be sent up - linOf does that through w.up;
+		// compare e + p with end as linear forms built the same way
+		sum := &linSum{coef: map[string]int64{}, val: map[string]ssa.Value{}}
+		sum.add(le, 1)
+		sum.add(lp, 1)
+		if sum.equal(linOf(w, end, 0)) {
+			r.ok("PADCUT", key, c.at, "cut end + padding = end")
+		} else {
+			_ = lenBs
+			r.bad("PADCUT", key, c.at, "the cut's end plus the padding length is not the requested end: the padded slice is not end-start bytes long (or is padded by an amount that is only right at aligned offsets)")
+		}
+	}
+	r.floor("PADCUT", "cases of sliceAndPadByteArray", len(cases), 1)
+}
+
+// ---------------------------------------------------------------------------
+// DIVZERO: the command line tool does not divide by a count that can be zero
+
+const ruleDIVZEROText = "no division by a count that can be zero in cmd/par: every integer / and % in package main has a divisor that is a non-zero constant or is known non-zero where the division happens (a dominating comparison) - a panic in a logging delegate ends the process with status 2, which the par command uses for 'repair not possible'"
+
+func ruleDIVZERO(w *World, r *Report, pkgs ...string) {
+	r.rule("DIVZERO", ruleDIVZEROText)
+	rangeWorld = w
+	n := 0
+	for _, fn := range w.funcsInPkgs(pkgs...) {
+		k := 0
+		for _, b := range fn.Blocks {
+			for _, in := range b.Instrs {
+				bo, ok := in.(*ssa.BinOp)
+				if !ok || (bo.Op != token.QUO && bo.Op != token.REM) || !isIntegerType(bo.Type()) {
+					continue
+				}
+				n++
+				key := fmt.Sprintf("%s:div#%d", shortName(fn), k)
+				k++
+				if c, ok := constInt(bo.Y); ok && c != 0 {
+					r.ok("DIVZERO", key, w.ipos(bo), "constant divisor")
+					continue
+				}
+				if c, ok := constUint(bo.Y); ok && c != 0 {
+					r.ok("DIVZERO", key, w.ipos(bo), "constant divisor")
+					continue
+				}
+				rc := &rangeCtx{memo: map[ssa.Value]*ival{}, busy: map[ssa.Value]bool{}}
+				iv := rc.eval(bo.Y, b)
+				nonzero := iv != nil && (iv.lo.Sign() > 0 || iv.hi.Sign() < 0)
+				for _, cm := range w.factsAt(bo) {
+					if cm.Y == nil {
+						continue
+					}
+					for _, pr := range [][2]ssa.Value{{cm.X, cm.Y}, {cm.Y, cm.X}} {
+						if z, isC := constInt(pr[1]); isC && z == 0 && sameImage(stripAllConv(pr[0]), stripAllConv(bo.Y)) && (cm.Op == token.NEQ || cm.Op == token.GTR) {
+							nonzero = true
+						}
+					}
+				}
+				if nonzero {
+					r.ok("DIVZERO", key, w.ipos(bo), "the divisor is known non-zero here")
+				} else {
+					r.bad("DIVZERO", key, w.ipos(bo), "the divisor "+describeVal(bo.Y)+" is not known to be non-zero: a zero count panics, and the process exits with status 2")
+				}
+			}
+		}
+	}
+	r.stat("divzero_sites", n)
 }
